@@ -12,6 +12,7 @@
 //	smallkey    small-order / non-canonical public-key strings x T_g, ground the same way (must be rejected)
 //	keys        malformed and foreign public-key strings
 //	alpha-sweep EVERY alpha length 0..300 (thorough 0..1100) x formats: proof, H, Verify, beta against the reference
+//	returned-slices  overwrite every returned slice / every input after the call and re-observe (no aliasing); nil = empty alpha
 //	memory      keys x alphas x formats x argument layouts: every byte-slice argument as a sub-slice of a larger
 //	            buffer (spare capacity, arguments adjacent in one buffer in every order, two keys back to back):
 //	            results independent of the layout, caller's memory bit-identical after every call
@@ -179,6 +180,15 @@ func run(c *mc.Ctx) {
 		f()
 		timing[name] = float64(time.Since(t).Milliseconds()) / 1000
 	}
+	// First, on one goroutine in a fresh process: slices the package hands out.  If a returned slice is shared
+	// (package-level buffer, cache entry), the concurrent sub-spaces below would fail depending on scheduling,
+	// i.e. not reproducibly; they are then not run and the (replayable) violations of this sub-space stand alone.
+	timed("returned-slices", func() { runReturned(c, keys, alphas) })
+	if c.Rep.NViolations > 0 && !c.Replaying() {
+		c.Cap("returned-slices violations found: the package hands out shared memory, the concurrent sub-spaces were not run (their verdicts would depend on scheduling)")
+		c.Rep.Extra["wall_s_by_group"] = timing
+		return
+	}
 	timed("prove", func() { runProve(c, keys, alphas) })
 	timed("randomized", func() { runRandomized(c, keys, alphas) })
 	timed("flips", func() { runFlips(c, keys, alphas) })
@@ -197,7 +207,7 @@ func run(c *mc.Ctx) {
 		"torsion/accepted/honest-key/gamma+T", "torsion/accepted/mixed-order-key", "torsion/accepted/mixed-order-key/gamma+T", "torsion/rejected/unground",
 		"smallkey/equation-holds/small-order", "smallkey/equation-holds/non-canonical",
 		"keys/pk-length", "keys/pk-not-a-point", "keys/pk-noncanonical",
-		"alpha-sweep/rfc9381", "alpha-sweep/draft10",
+		"alpha-sweep/rfc9381", "alpha-sweep/draft10", "returned-slices/rfc9381", "returned-slices/draft10", "returned-slices/nil-vs-empty-alpha",
 		"memory/prove", "memory/prove-randomized", "memory/prove-then-verify", "memory/verify", "memory/verify-rejecting", "memory/proof-to-hash", "memory/key-store-history",
 	} {
 		c.Require(cl, 1)
